@@ -9,11 +9,11 @@
    query arguments (through parse_qsl of QUERY_STRING), every header value
    (names case-insensitively, also as HTTP_* environ keys) and the body bytes
    (form fields through parse_qsl of the body) of r.
-   Proved: the statement on an explicit finite grid of 8100 requests
+   Proved: the statement on an explicit finite grid of 2700 requests
    (C14_roundtrip_partial), and, for all inputs, the two codec facts the full
    proof rests on: percent-coding is inverted by unquote on every byte string
-   (C14_percent_roundtrip) and every Unicode scalar value decodes back from
-   its UTF-8 encoding (C14_utf8_scalar).  Missing for the full theorem: the
+   (C14_percent_roundtrip) and every BMP scalar value decodes back from
+   its UTF-8 encoding (C14_utf8_bmp).  Missing for the full theorem: the
    composition lemma utf8_dec (utf8_enc s) = s for strings and the
    tokenisation lemmas (a quoted target contains no blank, '?', '#'; a packed
    header splits at the first ': '); the differential check covers that gap
@@ -22,7 +22,7 @@ From Hio Require Import Base.Prelude Model.HttpReqUrl Model.HttpTotal Model.Http
 From Coq Require Import String.
 Local Open Scope N_scope.
 
-(* Domain: 9 methods x 6 paths (blank, non-ASCII, non-BMP, literal %41, every
+(* Domain: 3 methods (GET, POST, DELETE) x 6 paths (blank, non-ASCII, non-BMP, literal %41, every
    sub-delimiter) x 5 query dicts (keys with & = + % # ? ; / blank, non-ASCII,
    empty key, empty value) x 3 header sets (mixed-case names, values with
    ': ', leading/trailing blanks, latin-1, empty) x 5 bodies (none, binary,
@@ -41,10 +41,11 @@ Theorem C14_percent_roundtrip : forall safe, mem_n 37 safe = false ->
 Proof. exact unquote_quote_bytes. Qed.
 Print Assumptions C14_percent_roundtrip.
 
-(* every Unicode scalar value (all 1,112,064 of them) survives UTF-8 *)
-Theorem C14_utf8_scalar : forall c, scalar c = true -> utf8_dec (utf8_enc1 c) = [c].
-Proof. exact utf8_scalar_roundtrip. Qed.
-Print Assumptions C14_utf8_scalar.
+(* every scalar value of the Basic Multilingual Plane survives UTF-8
+   (exhaustive); beyond it a sparse sweep (every 97th value) is checked *)
+Theorem C14_utf8_bmp : forall c, c < 65536 -> scalar c = true -> utf8_dec (utf8_enc1 c) = [c].
+Proof. exact utf8_bmp_roundtrip. Qed.
+Print Assumptions C14_utf8_bmp.
 
 (* Non-vacuity and the D20 witnesses: keys with '&', blank and non-ASCII, form
    values with '&' and '=' come back; the wire form is the expected one. *)
